@@ -195,14 +195,17 @@ theorem Chain.takeSet (c : Cfg) (sc : Sc) (k : Nat) (outer : List MOp) (ho : Rel
   · simp only [opsToks_nil, List.append_nil]
     exact CEq.refl _
 
-theorem Chain.takeMsg (c : Cfg) (ip dom : Nat) :
+/-- `TakeMsg` is a well-formed chain ending in exactly what `ReleaseMsg` gives back — provided the roll-back
+and the release derive the per-IP bucket key like the acquisition does (`IpKeys.Lawful`). -/
+theorem Chain.takeMsg (c : Cfg) (hk : c.keys.Lawful) (ip dom : Nat) :
     Chain c [] (takeMsgProg c ip dom) (opsToks c (releaseMsgProg c ip dom)) := by
   unfold takeMsgProg releaseMsgProg
+  rw [(hk ip).1, (hk ip).2]
   rw [List.append_assoc]
   apply Chain.append c _ _ _ _ _ (Chain.takeGlob c)
-  apply Chain.append c _ (opsToks c (relGAll c) ++ setToks c .ip ip) _ _ _
-    (Chain.takeSet c .ip ip _ (RelWF.relGAll c))
-  have := Chain.takeSet c .src dom (relGAll c ++ relSet c .ip ip)
+  apply Chain.append c _ (opsToks c (relGAll c) ++ setToks c .ip (c.keys.take ip)) _ _ _
+    (Chain.takeSet c .ip (c.keys.take ip) _ (RelWF.relGAll c))
+  have := Chain.takeSet c .src dom (relGAll c ++ relSet c .ip (c.keys.take ip))
     (RelWF.append c _ _ (RelWF.relGAll c) (RelWF.relSet c _ _))
   simpa [setToks] using this
 
